@@ -18,6 +18,38 @@ CHECKS = {
             "Trusted: the reference recurrence in vmon/oracles/stepper.py (closed form, self-checked "
             "against literal ticking each run); Python int arithmetic.",
             "DESIGN.md section 3 C01"),
+    "C02": ("exploration",
+            "runtime contracts (icontract post-conditions) on the real move_dist_t3 and rate_t3 + exact "
+            "third-order integer reference model, seeded stratified workload, ambient-precision perturbation",
+            "Every in-domain return value of the real move_dist_t3 and rate_t3 observed in a class-stratified "
+            "workload (7e4 moves quick, ~1.1e7 thorough; all jerk residues mod 6 x sign, accel parities, the "
+            "three clear levels incl. r1=r2=r3=0, interior extrema, exact-boundary totals, 11 ambient mpmath "
+            "settings) equals the recurrence; zero-jerk moves are compared with the real move_dist_lt.",
+            "Trusted: closed-form recurrence in vmon/oracles/stepper.py (self-checked by literal ticking); "
+            "domain filter computed exactly from the statement's validity condition.",
+            "DESIGN.md section 3 C02"),
+    "C03": ("exploration",
+            "runtime contract on the real calculate_lm + exact minimal-tick oracle (bisection over the integer "
+            "recurrence), cross-check through the real move_dist_lt, constructed boundary classes",
+            "Every in-domain return value of the real calculate_lm / moveTimeLM observed (6e4 requests quick, "
+            "~1e7 thorough) equals the first tick at which the step count of the exact recurrence reaches the "
+            "budget, with its position and accumulator; accumulator range and reproduction through the real "
+            "move_dist_lt are checked on the same executions. Classes: every reversal branch, reversal between "
+            "tick 1 and 2, exact step-boundary hits before/after a reversal (constructed), legacy negative "
+            "budgets, the three cannot-move rules.",
+            "Trusted: bisection oracle (self-checked against literal ticking with a per-tick step counter); "
+            "requests that do not complete the budget within the rate range are skipped and counted.",
+            "DESIGN.md section 3 C03"),
+    "C17": ("exploration",
+            "runtime contract on the real max_rate_t3 + exact per-tick rate oracle, workload stratified by "
+            "vertex position",
+            "Every in-domain return value of the real max_rate_t3 observed (1.5e5 quick, ~2.4e7 thorough) "
+            "satisfies |r_1| <= v, |r_T| <= v, v <= true peak, true peak - v <= |jerk| against the exact "
+            "integer recurrence, with the parabola vertex placed before, at, inside, near the end of and "
+            "beyond the move and exactly on integers / half-integers.",
+            "Trusted: exact peak from the ends and the integer neighbours of the vertex (self-checked by brute "
+            "force over all ticks for T <= 3000).",
+            "DESIGN.md section 3 C17"),
 }
 
 NOT_YET = "monitor not built yet in this revision (planned, see DESIGN.md)"
